@@ -47,6 +47,24 @@ CHECKS = {
  "C20": ("exploration", "runtime monitor: differential execution of the deserr extractors against the frameworks' own extractors composed with deserr::deserialize",
          "Every generated request (valid / ill-typed / malformed bodies, 24 content types, body limits, chunking, query strings) is run through the framework's own extractor and through the deserr extractor; status, content type, body bytes, the identity of the carried error and the accepted value must agree with framework extractor composed with deserr::deserialize.",
          "Trusted: actix-web / axum at the versions in Cargo.lock; no socket or router involved; a defect shared by deserialize and the extractors is invisible to a differential oracle.", "§4 C20"),
+ "C05": ("exploration", "runtime monitor: every scalar target driven over exhaustive integer ranges and boundary sets, outcome vs independent i128/u128 arithmetic and exact-rounding spec",
+         "All 30 scalar targets are driven through both value sources over all integers in [-70000, 70000], every 2^k-1/2^k/2^k+1 up to 2^64, every MIN/MAX +-1, ~2600 floats, strings of 0..4 scalars and every non-scalar kind; acceptance, exact value (floats bit-for-bit against a decimal-string rounding spec), accepted-kind sets and the facts in domain messages are checked by independent arithmetic.",
+         "Trusted: Rust's str::parse::<f32/f64> as the correctly rounded reference; recording error type.", "§4 C05"),
+ "C13": ("exploration", "runtime monitor: documents generated as text, round trips and kind agreement observed; classification from literal syntax",
+         "Every document of <= 4 nodes over a scalar alphabet, 58 numeric boundary literals and random documents are parsed from text and sent through Deserr for serde_json::Value and From<Value>; equality as values and as serialised text, kind() vs into_value().kind() at every node, and number classification against the literal's syntax.",
+         "Trusted: serde_json's parser; the one documented corner that serde_json holds `-0` as a float.", "§4 C13"),
+ "C16": ("exploration", "runtime monitor over the compiler's JSON diagnostics stream: every poisoned derive input must be rejected by a macro-issued diagnostic, every twin must compile",
+         "A matrix of 197 rejection causes (cause x level x spelling x item kind) is instantiated around seed-varied base items; the real macro runs inside cargo check and the diagnostics log is attributed to items by span. Every poisoned item needs an error without rustc code (a compile_error! from the derive), no diagnostic may mention a panic, every unpoisoned twin must compile (else inconclusive).",
+         "Trusted: rustc's JSON diagnostics and span attribution; diagnostics are those of the pinned stable toolchain.", "§4 C16"),
+ "C17": ("exploration", "runtime monitor: exhaustive enumeration of kind sequences, phrase parsed and compared with an independent set-based spec",
+         "All 37 448 sequences of length 1..5, the empty list and every permutation of every subset of size 6-8 are passed to value_kinds_description_json; outputs must depend on the set only, parse as a / a or b / a, b, or c over the pinned vocabulary, name exactly the set (number / integer merging) in one consistent order.",
+         "Trusted: the item vocabulary pinned by the repository's own snapshot test.", "§4 C17"),
+ "C18": ("exploration", "runtime monitor: did_you_mean vs an independent true Damerau-Levenshtein implementation, exhaustive over a 3-letter alphabet up to length 6",
+         "All 1093^2 (received, candidate) pairs over {a,b,c} up to length 6 plus random multi-candidate lists, ties, multi-byte strings around every budget threshold; result must be empty or the earliest accepted string at minimal true DL distance within the byte-length budget.",
+         "Trusted: the independent distance implementation (self-checked against breadth-first search over edits at start-up).", "§4 C18"),
+ "C19": ("exploration", "runtime monitor: real push_key/push_index chains for all paths of <= 6 steps, accessors compared with the pushed steps",
+         "All 55 987 paths of up to 6 steps over 3 keys and 3 indices plus random paths up to length 200 are built with real borrow chains; to_owned (via Debug), is_origin, first_field, last_field are compared with the list of pushed steps.",
+         "Trusted: the Debug rendering of ValuePointer (its component type is not exported).", "§4 C19"),
 }
 PENDING = {
 }
@@ -64,7 +82,7 @@ def main():
             "thorough_cmd": f"./check {pid} --tier thorough",
             "evidence_file": f"/verif/evidence/{pid}.json",
             "replay_cmd_template": f"./check {pid} --replay {{path}}",
-            "engine": "http" if pid == "C20" else ("c16" if pid == "C16" else "harness"),
+            "engine": {"C20": "http", "C16": "c16", "C05": "vdirect", "C13": "vdirect", "C17": "vdirect", "C18": "vdirect", "C19": "vdirect"}.get(pid, "harness"),
             "level_claimed": {"category": level, "text": text, "design_ref": ref},
             "level_note": note,
             "technique": tech,
@@ -82,8 +100,10 @@ def main():
             "add_only": True,
         },
         "engines": [
-            {"name": "harness", "path": "/verif/harness", "serves_properties": sorted(k for k in CHECKS if k not in ("C16", "C20")),
+            {"name": "harness", "path": "/verif/harness", "serves_properties": sorted(k for k in CHECKS if k not in ("C05", "C13", "C16", "C17", "C18", "C19", "C20")),
              "kind_free_text": "Rust workspace: program generator (gen), recording error types + instrumented value source (monitor), reference interpreter (refmodel), subject catalogue, per-property drivers; runs the real deserr code from /repo"},
+            {"name": "vdirect", "path": "/verif/harness/vdirect", "serves_properties": ["C05", "C13", "C17", "C18", "C19"], "kind_free_text": "direct oracles over public functions (independent arithmetic / edit distance / phrase spec)"},
+            {"name": "c16", "path": "/verif/c16", "serves_properties": ["C16"], "kind_free_text": "Python: derive-input matrix generator + cargo check diagnostics monitor"},
             {"name": "http", "path": "/verif/http", "serves_properties": ["C20"], "kind_free_text": "standalone crate driving the actix-web / axum extractors with futures::executor::block_on"},
         ],
         "checks": checks,
